@@ -255,7 +255,12 @@ class Mask(Generic[R], Pytree):
         else:
 
             def inner(true_v: ArrayLike, false_v: ArrayLike) -> Array:
-                return jnp.where(self.primal_flag(), true_v, false_v)
+                # a vectorized flag's shape is a prefix of the leaf's shape
+                flag = self.primal_flag()
+                extra = jnp.ndim(true_v) - jnp.ndim(flag)
+                if extra > 0 and jnp.ndim(flag) > 0:
+                    flag = jnp.reshape(flag, jnp.shape(flag) + (1,) * extra)
+                return jnp.where(flag, true_v, false_v)
 
             return jtu.tree_map(inner, self.value, default)
 
@@ -279,6 +284,20 @@ class Mask(Generic[R], Pytree):
     ###############
     # Combinators #
     ###############
+
+    @staticmethod
+    def _choose_elementwise(idx, this: R, other: R) -> R:
+        """
+        Selects between `this` and `other` leaf by leaf. A vectorized flag's shape is a *prefix* of
+        each leaf's shape, so the index is aligned with the leading axes of the leaf.
+        """
+
+        def inner(a, b):
+            extra = jnp.ndim(a) - jnp.ndim(idx)
+            i = jnp.reshape(idx, jnp.shape(idx) + (1,) * extra) if extra > 0 else idx
+            return tree_choose(i, [a, b])
+
+        return jtu.tree_map(inner, this, other)
 
     def _or_idx(self, first: Flag, second: Flag):
         """Converts a pair of flag arrays into an array of indices for selecting between two values.
@@ -316,7 +335,7 @@ class Mask(Generic[R], Pytree):
                 return other
             case self_flag, other_flag:
                 idx = self._or_idx(self_flag, other_flag)
-                return tree_choose(idx, [self, other])
+                return Mask._choose_elementwise(idx, self, other)
 
     def __xor__(self, other: "Mask[R]") -> "Mask[R]":
         self._validate_mask_shapes(other)
@@ -334,7 +353,7 @@ class Mask(Generic[R], Pytree):
                 # note that `idx` above will choose the correct side for the FF, FT and TF cases,
                 # but will equal 0 for TT flags. We use `FlagOp.xor_` to override this flag to equal
                 # False, since neither side in the TT case will provide a `False` flag for us.
-                chosen = tree_choose(idx, [self.value, other.value])
+                chosen = Mask._choose_elementwise(idx, self.value, other.value)
                 return Mask(chosen, FlagOp.xor_(self_flag, other_flag))
 
     def __invert__(self) -> "Mask[R]":
